@@ -45,7 +45,7 @@ def run(rep, pool, driver, tier):
 
 def _configs(rep, pools, driver, r, quick):
     cases = []
-    for i in range(8 if quick else 60):
+    for i in range(8 if quick else 24):
         es = gen.events(r, r.randint(2, 9), dup=r.choice([0.0, 0.3]), late=(i % 2 == 0))
         n_out = len({o for _, os_ in gen.file_norm(es) for o in os_})
         base = dict(gen.params(r), events=es, policy='dedup' if gen.has_dup(es) else 'error', stream='configs')
